@@ -112,6 +112,12 @@ def run(rep, tier, seed, workers):
                      objects=('a', 'b'),
                      kinds=['mod', 'savepoint', 'rollback', 'rival', 'commit',
                             'commit-vote-fail', 'abort']))
+    # new objects held by a savepoint when the commit fails after the
+    # connection has voted (only tpc_abort runs then)
+    plan.append(dict(prop='C12', kind='M', d=depth - 1, objects=('n',),
+                     kinds=['mod', 'link', 'add', 'savepoint', 'rollback',
+                            'commit-vote-fail', 'commit-finish-fail',
+                            'commit', 'abort']))
     if tier != 'quick':
         plan.append(dict(prop='C12', kind='M', d=depth - 1,
                          objects=('a', 'n', 'm'), max_handles=3))
@@ -121,7 +127,8 @@ def run(rep, tier, seed, workers):
         states += len(fps)
         rep.bounds['%s%s depth' % (cfg['kind'], '/3obj' if cfg.get(
             'max_handles') else '/failing commits' if cfg.get('rival')
-            else '')] = d
+            else '/new object, commits failing after the vote'
+            if cfg.get('objects') == ('n',) else '')] = d
 
     rep.cov['states'] = max(states, 1)
     rep.assumptions = [
